@@ -921,6 +921,8 @@ class Message:
             encrypted_payloads=[],
             crypto=crypto
         )
+        # becomes True only when an Encrypted payload has passed the integrity check
+        message.is_protected = False
 
         if not header_only:
             # parse unencrypted payloads
@@ -935,6 +937,8 @@ class Message:
                 checksum = crypto.integrity.compute(crypto.sk_a, data[:-crypto.integrity.hash_size])
                 if checksum != data[-crypto.integrity.hash_size:]:
                     raise InvalidSyntax('CHECKSUM ERROR')
+
+                message.is_protected = True
 
                 # parse decrypted payloads and remove Payload SK
                 message.iv, decrypted_data = payload_sk.decrypt(crypto)
